@@ -64,7 +64,8 @@ CHECKS = {
         text="All-forms / fixed-point / idempotence / id round-trip / attribute theorems proved in Lean over every "
              "element of the generated table, every digit string and every state (structural, not enumerated); the "
              "model is tied to the code by exhaustive three-way comparison (real code, model, name known by "
-             "construction) over all elements x states x forms and by the translator regenerating the tables.",
+             "construction) over all elements x states x forms and by the translator regenerating the tables; the translated "
+             "element table is kernel-decided equal to a hand-written periodic table (element_table_is_periodic_table).",
         ref="§4 C09", technique="Lean 4 proof (structural induction on strings) + translator + exhaustive correspondence",
         note=NOTE + "Model exact for ASCII; CPython str methods trusted."),
     "C10": dict(
@@ -119,11 +120,12 @@ CHECKS = {
         text="For the shipped dataset the kernel decides, for every root, that the queue-based builder model equals an independent "
              "specification (reachability, layered minimum distance, SF nodes, one edge per link, distinct names and positions); "
              "the real builder is compared with the model and with an independent reading for all 1512 roots, labels included. "
-             "For ALL datasets: positions pairwise distinct and edges = listed links (C16_positions_injective, "
-             "C16_edges_from_links), names distinct under DiagramWF (C16_node_names_nodup); node set = reachable set for all "
-             "datasets is not proved (partial).",
+             "For EVERY dataset accepted by the executable checker reachWFb (C16_checked_dataset): nodes = reachable nuclides + SF "
+             "nodes, row = minimum number of decays, names and positions pairwise distinct, edges = listed links; the driver "
+             "evaluates reachWFb on every synthetic / dense artificial dataset of the run (diagrams compared with the model and "
+             "the independent reading there too). Label texts and rendering are compared per input.",
         ref="§4 C16", technique="Lean 4 kernel decision for all roots of the regenerated dataset + exhaustive correspondence",
-        note=NOTE + "Reachability/row theorems for the shipped dataset only; networkx/Matplotlib not modelled."),
+        note=NOTE + "networkx/Matplotlib not modelled; label texts per input."),
     "C17": dict(
         text="eq_refl/symm/trans, ne_is_not_eq, eq_iff_same, nuclide_eq_iff, hash_respects_eq, foreign_type_false, cross_kind_false "
              "proved for the equality model; all ordered pairs of a pool of nuclides, inventories (both classes, many numeric "
